@@ -134,6 +134,9 @@ pub struct GOutput {
 pub struct GMint {
     pub amount: AssetE,
     pub redeemer: DataE,
+    /// the block is written without a `redeemer` field (a native-script policy)
+    #[serde(default)]
+    pub no_redeemer: bool,
 }
 
 #[derive(Debug, Clone, Serialize, Deserialize, PartialEq)]
@@ -588,8 +591,10 @@ pub fn tokens(prog: &GProg, trailing: bool) -> Vec<String> {
             let m = p.t.len();
             p.toks(&[kw, "{", "amount", ":"]);
             p.asset(&mnt.amount, prog);
-            p.toks(&[",", "redeemer", ":"]);
-            p.data(&mnt.redeemer, prog);
+            if !mnt.no_redeemer {
+                p.toks(&[",", "redeemer", ":"]);
+                p.data(&mnt.redeemer, prog);
+            }
             p.toks(&[",", "}"]);
             p.nl();
             blocks.push(take(&mut p, m));
@@ -993,7 +998,7 @@ fn gen_datum(g: &mut Gen, point: &str, prog: &mut GProg) -> Option<DataE> {
 }
 
 fn gen_pay_amount(g: &mut Gen, point: &str, prog: &mut GProg) -> AssetE {
-    let alts = ["ada(q)", "ada(int)", "ada+token", "anyasset", "ada+ada", "local", "paren-sum", "token-only", "ada(n)", "anyasset-n", "ada(q-n)", "anyasset-param-class"];
+    let alts = ["ada(q)", "ada(int)", "ada+token", "anyasset", "ada+ada", "local", "paren-sum", "token-only", "ada(n)", "anyasset-n", "ada(q-n)", "anyasset-param-class", "ada(input-field)", "anyasset(input-fields)"];
     let q = || IntE::Param("q".into());
     match alts[g.pick(point, &alts)] {
         // the asset class itself comes from parameters: the sum cannot be folded before they are applied
@@ -1007,6 +1012,19 @@ fn gen_pay_amount(g: &mut Gen, point: &str, prog: &mut GProg) -> AssetE {
             AssetE::Add(
                 Box::new(AssetE::Ada(IntE::Lit(1300000))),
                 Box::new(AssetE::AnyAsset(BytesE::Param("pol".into()), BytesE::Param("tname".into()), IntE::Lit(2))),
+            )
+        }
+        // quantities and names read from the datum of another input, inside an asset constructor (the arguments
+        // of a constructor are data, whatever the position the constructor itself sits in)
+        "ada(input-field)" => {
+            ensure_datum_input(prog);
+            AssetE::Add(Box::new(AssetE::Ada(q())), Box::new(AssetE::Ada(IntE::InputField("st".into(), 0, "counter".into()))))
+        }
+        "anyasset(input-fields)" => {
+            ensure_datum_input(prog);
+            AssetE::Add(
+                Box::new(AssetE::Ada(q())),
+                Box::new(AssetE::AnyAsset(BytesE::Hex(POLICY_A.to_vec()), BytesE::InputField("st".into(), 1, "owner".into()), IntE::InputListItem("st".into(), 2, "limits".into(), Box::new(IntE::Lit(0))))),
             )
         }
         "ada(q)" => AssetE::Ada(q()),
@@ -1126,51 +1144,82 @@ pub fn generate(c: &mut Chooser) -> Scenario {
     prog.outputs.push(GOutput { name: None, optional: false, to: AddrE::Party(sender.to_string()), amount: AssetE::Fees, datum: None });
 
     // mint / burn
-    let mint_kind = g.pick("mint", &["none", "static-asset", "anyasset", "mint+burn", "two-mints", "anyasset-n", "burn-n"]);
+    let mint_kind = g.pick("mint", &["none", "static-asset", "anyasset", "mint+burn", "two-mints", "anyasset-n", "burn-n", "same-asset-twice-n", "mint-n+burn-n-same-asset"]);
     let (minted, burned): (Option<AssetE>, Option<AssetE>) = match mint_kind {
         0 => (None, None),
         1 => {
             let a = ensure_asset_def(&mut prog);
             let m = AssetE::Tok(a, IntE::Lit(10));
-            prog.mints.push(GMint { amount: m.clone(), redeemer: DataE::Unit });
+            prog.mints.push(GMint { amount: m.clone(), redeemer: DataE::Unit, no_redeemer: false });
             (Some(m), None)
         }
         2 => {
             let m = AssetE::AnyAsset(BytesE::Hex(POLICY_B.to_vec()), BytesE::Str("SILVER".into()), IntE::Param("q".into()));
-            prog.mints.push(GMint { amount: m.clone(), redeemer: DataE::Int(IntE::Lit(1)) });
+            prog.mints.push(GMint { amount: m.clone(), redeemer: DataE::Int(IntE::Lit(1)), no_redeemer: false });
             (Some(m), None)
         }
         3 => {
             let a = ensure_asset_def(&mut prog);
             let m = AssetE::Tok(a, IntE::Lit(10));
             let b = AssetE::Tok(a, IntE::Lit(4));
-            prog.mints.push(GMint { amount: m.clone(), redeemer: DataE::Unit });
-            prog.burns.push(GMint { amount: b.clone(), redeemer: DataE::Unit });
+            prog.mints.push(GMint { amount: m.clone(), redeemer: DataE::Unit, no_redeemer: false });
+            prog.burns.push(GMint { amount: b.clone(), redeemer: DataE::Unit, no_redeemer: false });
             (Some(m), Some(b))
         }
         5 => {
             let m = AssetE::AnyAsset(BytesE::Hex(POLICY_B.to_vec()), BytesE::Str("SILVER".into()), ensure_n(&mut prog));
-            prog.mints.push(GMint { amount: m.clone(), redeemer: DataE::Unit });
+            prog.mints.push(GMint { amount: m.clone(), redeemer: DataE::Unit, no_redeemer: false });
             (Some(m), None)
         }
         6 => {
             let a = ensure_asset_def(&mut prog);
             let b = AssetE::Tok(a, ensure_n(&mut prog));
-            prog.burns.push(GMint { amount: b.clone(), redeemer: DataE::Unit });
+            prog.burns.push(GMint { amount: b.clone(), redeemer: DataE::Unit, no_redeemer: false });
             (None, Some(b))
+        }
+        // two blocks on one asset class: the field holds their sum (which can leave the field's range although each
+        // amount fits) or their difference
+        7 => {
+            let a = ensure_asset_def(&mut prog);
+            let m1 = AssetE::Tok(a, ensure_n(&mut prog));
+            let m2 = AssetE::Tok(a, ensure_n(&mut prog));
+            prog.mints.push(GMint { amount: m1.clone(), redeemer: DataE::Unit, no_redeemer: true });
+            prog.mints.push(GMint { amount: m2.clone(), redeemer: DataE::Unit, no_redeemer: true });
+            (Some(AssetE::Add(Box::new(m1), Box::new(m2))), None)
+        }
+        8 => {
+            let a = ensure_asset_def(&mut prog);
+            let m = AssetE::Tok(a, ensure_n(&mut prog));
+            let b = AssetE::Tok(a, IntE::Sub(Box::new(ensure_n(&mut prog)), Box::new(IntE::Lit(4))));
+            prog.mints.push(GMint { amount: m.clone(), redeemer: DataE::Unit, no_redeemer: false });
+            prog.burns.push(GMint { amount: b.clone(), redeemer: DataE::Unit, no_redeemer: false });
+            (Some(m), Some(b))
         }
         _ => {
             let a = ensure_asset_def(&mut prog);
             let m1 = AssetE::Tok(a, IntE::Lit(2));
             let m2 = AssetE::AnyAsset(BytesE::Hex(POLICY_B.to_vec()), BytesE::Str("SILVER".into()), IntE::Lit(5));
-            prog.mints.push(GMint { amount: m1.clone(), redeemer: DataE::Unit });
-            prog.mints.push(GMint { amount: m2.clone(), redeemer: DataE::Unit });
+            prog.mints.push(GMint { amount: m1.clone(), redeemer: DataE::Unit, no_redeemer: false });
+            prog.mints.push(GMint { amount: m2.clone(), redeemer: DataE::Unit, no_redeemer: false });
             (Some(AssetE::Add(Box::new(m1), Box::new(m2))), None)
         }
     };
 
     let change = gen_change(&mut g, &pay, &["a".to_string()], minted.as_ref(), burned.as_ref());
     prog.outputs[1].amount = change;
+    // a datum input that an amount expression brought in before the outputs existed: its value goes back to the sender
+    // like that of one brought in by a datum (ensure_datum_input adds it to the last output when there is one)
+    fn mentions_input(e: &AssetE, name: &str) -> bool {
+        match e {
+            AssetE::Input(n) => n == name,
+            AssetE::Add(a, b) | AssetE::Sub(a, b) => mentions_input(a, name) || mentions_input(b, name),
+            AssetE::Paren(a) => mentions_input(a, name),
+            _ => false,
+        }
+    }
+    if prog.inputs.iter().any(|i| i.name == "st") && !mentions_input(&prog.outputs[1].amount, "st") {
+        prog.outputs[1].amount = AssetE::Add(Box::new(prog.outputs[1].amount.clone()), Box::new(AssetE::Input("st".into())));
+    }
 
     // datums
     prog.outputs[0].datum = gen_datum(&mut g, "pay.datum", &mut prog);
